@@ -2,7 +2,9 @@ package main
 
 import (
 	"fmt"
+	"sort"
 	"strings"
+	"unicode"
 
 	"evylang.dev/evy/pkg/lexer"
 	"evylang.dev/evy/pkg/parser"
@@ -191,6 +193,67 @@ type rtCtx struct {
 	model *Model
 	asked int
 	max   int
+	lex   *Model // FormatLex.fmtlex_case: the lexer model on the formatter model's text
+	lexed int    // programs on which pieces_ok and lex_matches were evaluated
+	lexOK int    // ... and pieces_ok held (lex_reads_pieces applies)
+}
+
+// rtLexTable is the oracle table ((cp isLetter isDigit) ...) for the code points of text.
+func rtLexTable(text string) SX {
+	seen := map[rune]bool{}
+	var distinct []rune
+	for _, r := range []rune(text) {
+		if !seen[r] {
+			seen[r] = true
+			distinct = append(distinct, r)
+		}
+	}
+	sort.Slice(distinct, func(i, j int) bool { return distinct[i] < distinct[j] })
+	var rows []SX
+	for _, r := range distinct {
+		rows = append(rows, Lst(Int(int64(r)), Bool(unicode.IsLetter(r)), Bool(unicode.IsDigit(r))))
+	}
+	return Lst(rows...)
+}
+
+// c06LexLink evaluates, on the extracted models, the hypothesis and the conclusion of
+// FormatLexProofs.lex_reads_pieces for the pieces the formatter model writes for prog.
+func c06LexLink(c *rtCtx, r *Result, src, formatted string, psx SX) {
+	if c.lex == nil || c.lexed >= 400 {
+		return
+	}
+	for _, ch := range formatted {
+		if ch >= 0x80 { // model strings are byte lists, the lexer model reads code points
+			return
+		}
+	}
+	ans, err := c.lex.Ask(Lst(rtLexTable(formatted), psx).String())
+	if err != nil {
+		r.Violate(Violation{Kind: "correspondence", Key: "lexlink-model-failed", Detail: err.Error(), Input: src})
+		c.lex = nil
+		return
+	}
+	tx, err := ParseSX(ans)
+	if err != nil || tx.Kind != "lst" || len(tx.L) != 3 {
+		r.Violate(Violation{Kind: "correspondence", Key: "lexlink-model-failed", Detail: "answer: " + ans, Input: src})
+		return
+	}
+	c.lexed++
+	piecesOK, matches := tx.L[0].S == "true", tx.L[1].S == "true"
+	if piecesOK {
+		c.lexOK++
+	}
+	if !matches {
+		r.Violate(Violation{Kind: "correspondence", Key: "lexer-model-differs-from-token-view",
+			Detail: "Lexer.lex (render (fmt_prog p)) is not FormatParse.toks_of_pieces (fmt_prog p) (types, literals of non-strings)", Input: src, Impl: formatted})
+	}
+	if piecesOK && !matches {
+		r.Violate(Violation{Kind: "correspondence", Key: "lex-reads-pieces-contradicted",
+			Detail: "pieces_ok holds and lex_matches does not: contradicts FormatLexProofs.lex_reads_pieces", Input: src, Impl: formatted})
+	}
+	if !piecesOK && matches {
+		// the local condition is sufficient, not necessary; count only
+	}
 }
 
 // c06RoundTrip runs the model round trip for the expressions of prog against the re-parse prog2.
@@ -203,6 +266,7 @@ func c06RoundTrip(c *rtCtx, r *Result, src, formatted string, prog, prog2 *parse
 	if err != nil {
 		return
 	}
+	c06LexLink(c, r, src, formatted, psx)
 	ans, err := c.model.Ask(Lst(Sym("progtoks"), psx).String())
 	if err != nil {
 		r.Violate(Violation{Kind: "correspondence", Key: "roundtrip-model-failed", Detail: err.Error(), Input: src})
@@ -290,6 +354,7 @@ func c06RoundTrip(c *rtCtx, r *Result, src, formatted string, prog, prog2 *parse
 func rtNote(r *Result, c *rtCtx) {
 	if c != nil {
 		r.Note("round trip: %d expressions formatted and re-parsed on the models (Format.fmt_expr -> FormatParse.toks_of_pieces -> Pratt.parse_expr) and compared with the real re-parse", c.asked)
+		r.Note("lexer link: on %d formatted programs the lexer model applied to the formatter model's text gave the token view; on %d of them the local hypothesis pieces_ok of lex_reads_pieces held", c.lexed, c.lexOK)
 	}
 }
 
